@@ -11,7 +11,7 @@ CONSTANTS
   WithSemi = FALSE
   ZoneNulls = TRUE
   Radii = {4}
-  Margin = 4
+  Margin = 5
   ProbeOdd = FALSE
 INVARIANT ClipRegionEnclosed
 CHECK_DEADLOCK FALSE
